@@ -195,6 +195,8 @@ func Run(o *drv.Out) {
 	for _, scheme := range schemes {
 		runReplay(o, fo, scheme)
 	}
+	runMultisig(o, fo)
+	runRLP(o, fo)
 	runCrossChain(o, fo)
 	runWindow(o, fo)
 	runCodec(o)
@@ -237,6 +239,14 @@ func runReplay(o *drv.Out, fo *failOnce, scheme string) {
 	if err != nil {
 		panic(err)
 	}
+	if o.Tier != "thorough" {
+		vs = thin(vs, 150, o)
+	}
+	// the named witnesses of the Lean theorems are offered on every run (corpus)
+	for _, w := range witnessVariants(scheme, raw1) {
+		w.kind = "corpus-" + w.kind
+		vs = append([]variant{w}, vs...)
+	}
 	for _, pv := range pubKeyEncodings(k) {
 		b, err := replaceSigField(raw1, 1, pv.b)
 		if err != nil {
@@ -250,9 +260,6 @@ func runReplay(o *drv.Out, fo *failOnce, scheme string) {
 			panic(err)
 		}
 		vs = append(vs, variant{"sigmall", "signature-malleation", sv.desc, b})
-	}
-	if o.Tier != "thorough" {
-		vs = thin(vs, 170, o)
 	}
 	// keep two accepted-looking members back for the same-block probes
 	var reserve []variant
